@@ -279,6 +279,13 @@ class ErrClient(ir.Client):
         self._reads(e, reads, set(assigned_here))
         for vid in reads:
             pend.pop(vid, None)
+        # a pending result overwritten by anything else (a constant, a condition, ..) is lost just the same
+        for l, rhs, op in ir.assigned_vars(e):
+            if op == "=" and l.get("id") in pend and l["id"] not in reads and l["id"] not in assigned_here and l.get("t") == "err_t":
+                self._v(node, "result of %s overwritten before it was examined" % pend[l["id"]][1],
+                        "the err_t result of %s stored in %s at line %d is overwritten at line %d without having been tested or "
+                        "returned" % (pend[l["id"]][1], l["n"], pend[l["id"]][0], node.line))
+                pend.pop(l["id"], None)
         for vid, (l, call) in assigned_here.items():
             if vid in pend and vid not in reads:
                 self._v(node, "result of %s overwritten before it was examined" % pend[vid][1],
